@@ -19,7 +19,15 @@ pub fn run(ctx: &Ctx) -> Report {
         let cfg = crate::gen::gen_wcfg(&mut rng);
         let es = crate::gen::gen_entries(&mut rng, &cfg.cmp, 30, 60);
         rep.case(&format!("{} {}", cfg.describe(), crate::gen::entries_str(&es)), true);
-        s9_build(&mut d, &mut rep, &cfg, &es);
+        if let Some(img) = s9_build(&mut d, &mut rep, &cfg, &es) {
+            use crate::session::*;
+            let keys = crate::gen::probes(&mut rng, &es, &[]);
+            let mut ops = vec![Op::Open { t: 0, file: 0, size: img.len(), cmp: cfg.cmp.clone(), pol: cfg.pol.clone() }, Op::Iter(0, 0), Op::Iter(1, 0)];
+            ops.extend(gen_ops(&mut rng, 1, 2, &keys, 30, true));
+            let s = Session { cap: rng.range(1, 4), files: vec![img], faults: vec![], ops };
+            rep.count("s10_sessions");
+            compare(&mut d, &mut rep, &s);
+        }
     }
     for _ in 0..n {
         let cap = rng.range(1, 4);
